@@ -1,6 +1,7 @@
 import Nstd.Common.Basic
 import Nstd.Hash.Model
 import Nstd.Hash.PtrModel
+import Nstd.Generated.HashConst
 /-
   Line protocol of the Hash area (HashMap / HashSet / PoolMap).
 
@@ -17,6 +18,7 @@ import Nstd.Hash.PtrModel
      <result> || <table 0> || <table 1> || eq=<t0==t1> <t1==t0> <t0==t0>
   with  <table> = n=<size> e=<isEmpty> it=<k:v,...|-> f=<find(0)>,<find(1)>,... c=<contains bits> fr=<front|-> bk=<back|->
   Everything printed is obtained through `step` (queries are ops of the model).
+  The class constants (items per block, default capacity) come from `Nstd/Generated/HashConst.lean`.
   The driver runs BOTH models in lock-step: the chain-list model (`Model.lean`, `step`) and the pointer-level
   model (`PtrModel.lean`, `pstep`); a line on which they differ is printed as `MODEL-MISMATCH …`.
   An op the container does not have / an invalid iterator prints `bad-op` (state unchanged).
@@ -51,7 +53,16 @@ def hashFn (mode : Nat) (k : Nat) : Nat :=
   else if mode = 3 then 2 ^ 64 - 1 - k      -- (usize)~k: huge hash codes
   else k / 2
 
-def dinit : DState := ⟨Kind.map, 0, 6, init, Ptr.pinit⟩
+/-- (items per block, default capacity) of the container class in the current sources (translator output) -/
+def constsOf : Kind → Nat × Nat
+  | .map => (Nstd.Generated.Hash.itemsPerBlockMap, Nstd.Generated.Hash.defaultCapacityMap)
+  | .set => (Nstd.Generated.Hash.itemsPerBlockSet, Nstd.Generated.Hash.defaultCapacitySet)
+  | .pool => (Nstd.Generated.Hash.itemsPerBlockPool, Nstd.Generated.Hash.defaultCapacityPool)
+
+def dstart (k : Kind) (mode dom : Nat) : DState :=
+  ⟨k, mode, dom, initWith (constsOf k).1 (constsOf k).2, Ptr.pinitWith (constsOf k).1 (constsOf k).2⟩
+
+def dinit : DState := dstart Kind.map 0 6
 
 def outStr : Out → String
   | .unit => "unit"
@@ -111,13 +122,13 @@ def follow (nxt : Nat → Option Nat) : Nat → Option Nat → List Nat
 /-- the same line read off the pointer model: chains along `nextCell` (checking every `cell` back-pointer),
     free list along `prev`, order list along `next` -/
 def whiteBoxPtr (t : Ptr.PTable) : String :=
-  let chainOf (b : Nat) : List Nat := follow (fun i => (t.items i).nextCell) (4 * t.blocks + 1) (t.heads b)
+  let chainOf (b : Nat) : List Nat := follow (fun i => (t.items i).nextCell) (t.ipb * t.blocks + 1) (t.heads b)
   let cellsOk (b : Nat) : Bool :=
     let l := chainOf b
     (l.zip (Ptr.CellRef.bucket b :: l.map Ptr.CellRef.nextOf)).all (fun p => (t.items p.1).cell == p.2)
   let bs := if t.allocated then (List.range t.cap).filter (fun b => (t.heads b).isSome) else []
   let chains := bs.map (fun b => s!"{b}:{idsStr (chainOf b)}")
-  let free := follow (fun i => (t.items i).prev) (4 * t.blocks + 1) t.freeItem
+  let free := follow (fun i => (t.items i).prev) (t.ipb * t.blocks + 1) t.freeItem
   let order := match t.order with | some l => idsStr l | none => "FAULT"
   s!"wb cap={t.cap} alloc={if t.allocated then 1 else 0} blocks={t.blocks} " ++
   s!"chains={if chains.isEmpty then "-" else "|".intercalate chains} free={idsStr free} order={order}" ++
@@ -157,7 +168,7 @@ def stepLine (d : DState) (ws : List String) : DState × String :=
   | ["cfg", k, m, n] =>
     match parseKind k, m.toNat?, n.toNat? with
     | some k, some m, some n =>
-      let d' : DState := ⟨k, m, n, init, Ptr.pinit⟩
+      let d' : DState := dstart k m n
       (d', obs d' "unit")
     | _, _, _ => (d, "bad-op")
   | ["wb", t] =>
